@@ -213,3 +213,14 @@ func keyCanon(k []val.Value) string {
 	}
 	return strings.Join(parts, "|")
 }
+
+type metaList = meta.List
+
+// entryDocDefs: definitions a source document for an entry point is rooted at
+// (a list entry point takes {"list":[...]}).
+func entryDocDefs(m *meta.Module, ep entryPoint) []meta.Definition {
+	if ep.kind(m) == "list" {
+		return []meta.Definition{ep.def(m)}
+	}
+	return ep.defs(m)
+}
